@@ -103,6 +103,7 @@ type Interp struct {
 	hpkg *ssa.Package // harness package
 
 	globals  map[*ssa.Global]*Cell
+	initStores map[*ssa.Package]map[*ssa.Global]bool
 	inited   map[*ssa.Package]int // 0 no, 1 running, 2 done, 3 failed
 	initErr  map[*ssa.Package]string
 	funcInfo map[*ssa.Function]*fnInfo
@@ -257,10 +258,10 @@ func (in *Interp) curPos(th *Thread) string {
 
 func (in *Interp) stack(th *Thread) string {
 	var sb strings.Builder
-	for i := len(th.frames) - 1; i >= 0 && i > len(th.frames)-12; i-- {
+	for i := len(th.frames) - 1; i >= 0 && i > len(th.frames)-5; i-- {
 		fr := th.frames[i]
 		if fr.fn != nil {
-			sb.WriteString(fr.fn.String())
+			sb.WriteString(fr.fn.Name())
 			if fr.block != nil && fr.ip < len(fr.block.Instrs) {
 				sb.WriteString("@" + in.posStr(fr.block.Instrs[fr.ip].Pos()))
 			}
@@ -341,9 +342,49 @@ func (in *Interp) global(g *ssa.Global) *Cell {
 		return c
 	}
 	if in.inited[g.Pkg] == 3 && !in.inInit {
-		in.note("global of uninitialised package: " + g.String())
+		if in.initWrites(g) {
+			panic(unsupported{"global " + g.String() + " is set by a package initialiser that is not executed (package outside the encodable set)"})
+		}
+		in.note("global of uninitialised package (zero-initialised in source): " + g.String())
 	}
 	return in.mkGlobal(g)
+}
+
+// initWrites reports whether the package initialiser of g's package stores into g (directly or
+// through a field/element address).
+func (in *Interp) initWrites(g *ssa.Global) bool {
+	if in.initStores == nil {
+		in.initStores = map[*ssa.Package]map[*ssa.Global]bool{}
+	}
+	m, ok := in.initStores[g.Pkg]
+	if !ok {
+		m = map[*ssa.Global]bool{}
+		if f := g.Pkg.Func("init"); f != nil {
+			var root func(v ssa.Value) *ssa.Global
+			root = func(v ssa.Value) *ssa.Global {
+				switch x := v.(type) {
+				case *ssa.Global:
+					return x
+				case *ssa.FieldAddr:
+					return root(x.X)
+				case *ssa.IndexAddr:
+					return root(x.X)
+				}
+				return nil
+			}
+			for _, b := range f.Blocks {
+				for _, ins := range b.Instrs {
+					if st, ok := ins.(*ssa.Store); ok {
+						if gg := root(st.Addr); gg != nil {
+							m[gg] = true
+						}
+					}
+				}
+			}
+		}
+		in.initStores[g.Pkg] = m
+	}
+	return m[g]
 }
 
 func (in *Interp) mkGlobal(g *ssa.Global) *Cell {
